@@ -609,9 +609,11 @@ def run_pgl(inp):
     r2 = np.asarray(H.sl2_iso(A).to_sl2())
     # the other two components of O(2,1): -S
     rmA = np.asarray(lie.o_to_pgl(-SA))
+    # bilinear_form=None: the argument is already in the Killing basis, i.e. it is sl2_irrep(A, 3)
+    rN = np.asarray(lie.o_to_pgl(np.asarray(lie.sl2_irrep(A, 3)), bilinear_form=None))
     rmAB = np.asarray(lie.o_to_pgl((-SA) @ SB))
     return {"rA": rA.tolist(), "rB": rB.tolist(), "rAB": rAB.tolist(), "to_sl2": r2.tolist(),
-            "rmA": rmA.tolist(), "rmAB": rmAB.tolist()}
+            "rmA": rmA.tolist(), "rmAB": rmAB.tolist(), "rN": rN.tolist()}
 
 
 def pm_err(X, Y):
@@ -632,6 +634,9 @@ def judge_pgl(inp, obs, lr):
                     "tags": dict(tags0, site="recover_" + k, returns_PAP=bool(finite(obs[k]) and pm_err(obs[k], PAP) <= 1e-6))}
     if pm_err(obs["rAB"], np.array(obs["rA"]) @ np.array(obs["rB"])) > 1e-6:
         return {"expected": "o_to_pgl(S·T) = ± o_to_pgl(S)·o_to_pgl(T)", "observed": obs, "tags": dict(tags0, site="hom_up_to_sign")}
+    if not finite(obs["rN"]) or pm_err(obs["rN"], A) > 1e-6:
+        return {"expected": {"o_to_pgl(sl2_irrep(A,3), bilinear_form=None) = ±A": A.tolist()}, "observed": obs["rN"],
+                "tags": dict(tags0, site="form_none")}
     if not finite(obs["rmA"]) or pm_err(obs["rmA"], A) > 1e-6:
         return {"expected": {"o_to_pgl(-S) = ±A (O(2,1) → PGL(2) kills -1)": A.tolist()}, "observed": obs["rmA"],
                 "tags": dict(tags0, site="minus_S")}
@@ -686,6 +691,145 @@ def judge_pglform(inp, obs, lr):
     return None
 
 
+# ------------------------------------------------------------------------------------------------
+# array-level correspondence: the literal ND models of the vectorised code paths vs the arrays numpy returns
+# ------------------------------------------------------------------------------------------------
+def nd_enc(mats, shape, k):
+    return {"shape": list(shape) + [k, k], "data": [x for M in mats for r in M for x in r]}
+
+
+def gen_nd(rng, n):
+    for _ in range(n):
+        which = rng.choice(["irrep", "irrep", "so21", "gln"])
+        shape = rng.choice([[], [1], [2], [3], [2, 2], [1, 2], [2, 1, 2]])
+        cnt = int(np.prod(shape)) if shape else 1
+        if which == "gln":
+            k = rng.choice([1, 2, 2, 3])
+            mats = [C.rzinv(rng, "Q", k, 2, 2, F(1, 2)) for _ in range(cnt)]
+            yield {"which": which, "k": k, "shape": shape, "A": nd_enc(C.enc(mats, "Q"), shape, k),
+                   "Ai": nd_enc(C.enc([C.zinv(M) for M in mats], "Q"), shape, k)}
+        else:
+            mats = [rmat2(rng, "Q", rng.choice(["sl2", "zero", "gl2"])) for _ in range(cnt)]
+            yield {"which": which, "k": 2, "n": rng.choice([1, 2, 3, 4, 5, 6]), "shape": shape,
+                   "A": nd_enc(C.enc(mats, "Q"), shape, 2)}
+
+
+def _nd_arr(d):
+    return np.array([float(F(x)) for x in d["data"]]).reshape(d["shape"])
+
+
+def run_nd(inp):
+    A = _nd_arr(inp["A"])
+    if inp["which"] == "irrep":
+        R = lie.sl2_irrep(A, inp["n"])
+    elif inp["which"] == "so21":
+        R = lie.sl2_to_so21(A)
+    else:
+        R = lie.gln_adjoint(A, inv=_nd_arr(inp["Ai"]))
+    return {"R": tolist(R)}
+
+
+def lean_nd(inp, obs):
+    if inp["which"] == "irrep":
+        return [{"op": "c17.irrep_nd", "n": inp["n"], "A": inp["A"]}]
+    if inp["which"] == "so21":
+        return [{"op": "c17.so21_nd", "A": inp["A"]}]
+    return [{"op": "c17.gln_nd", "n": inp["k"], "A": inp["A"], "Ai": inp["Ai"]}]
+
+
+def judge_nd(inp, obs, lr):
+    tags0 = {"map": inp["which"], "rank": len(inp["shape"])}
+    if "exc" in obs:
+        return {"expected": "an array of images", "observed": obs, "tags": dict(tags0, exc=obs["exc"]), "property_failure": True}
+    r = lr[0]
+    if "err" in r:
+        return {"expected": "model answer", "observed": r, "tags": dict(tags0, driver_err=r["err"])}
+    if "object_dtype" in obs["R"]:
+        return {"expected": "numeric array", "observed": "object dtype", "tags": dict(tags0, object_dtype=True)}
+    R = toarr(obs["R"])
+    m = r["ok"]
+    if list(R.shape) != m["shape"]:
+        return {"expected": {"shape": m["shape"]}, "observed": list(R.shape), "tags": dict(tags0, site="shape")}
+    M = np.array([float(F(x)) for x in m["data"]]).reshape(m["shape"])
+    if not same(R, M, 1e-8):
+        return {"expected": "array-level model value", "observed": {"max_abs_diff": float(np.max(np.abs(R - M)))},
+                "tags": dict(tags0, site="values")}
+    return None
+
+
+# integer packagings: the same matrices as int ndarrays (int64 / int32), stacks of them, and Python int lists where the
+# entry point documents array-likes (hyperbolic.sl2_iso / Isometry.from_sl2); lie.* document `ndarray` arguments
+INT_MAPS = ["irrep", "so21", "sl2_iso", "from_sl2", "gln", "sln", "slr", "blk", "so31", "hom_irrep", "hom_so21", "hom_gln", "hom_sln"]
+
+
+def int_fn(name, param):
+    if name == "sl2_iso":
+        return lambda M: np.swapaxes(np.asarray(H.sl2_iso(M).proj_data), -1, -2)
+    if name == "from_sl2":
+        return lambda M: np.swapaxes(np.asarray(H.Isometry.from_sl2(M).proj_data), -1, -2)
+    return map_fn(name, param)
+
+
+def gen_intpack(rng, n):
+    for _ in range(n):
+        name = rng.choice(INT_MAPS)
+        base = name[4:] if name.startswith("hom_") else name
+        k = 2 if base in ("irrep", "so21", "sl2_iso", "from_sl2", "so31") else rng.choice([2, 3, 4])
+        param = rng.choice([1, 2, 3, 4, 5, 6]) if base == "irrep" else (k + rng.choice([0, 1, 2]) if base == "blk" else None)
+        shape = rng.choice([[], [], [2], [2, 2]])
+        cnt = int(np.prod(shape)) if shape else 1
+        mats = []
+        for _ in range(2 * cnt):
+            while True:
+                M = [[rng.randint(-3, 3) for _ in range(k)] for _ in range(k)]
+                d = round(float(np.linalg.det(np.array(M, dtype=float))))
+                want_unimodular = base in ("so21", "sl2_iso", "from_sl2", "so31") or rng.random() < 0.4
+                if d != 0 and (abs(d) == 1 or not want_unimodular) and (d == 1 or base not in ("so31",)):
+                    break
+            mats.append(M)
+        packs = ["int64", "int32"] + (["list"] if base in ("sl2_iso", "from_sl2") else [])
+        yield {"map": name, "param": param, "k": k, "shape": shape, "A": mats[:cnt], "B": mats[cnt:], "pack": rng.choice(packs)}
+
+
+def _pack(mats, shape, k, pack):
+    a = np.array(mats, dtype=np.int64).reshape(tuple(shape) + (k, k))
+    if pack == "list":
+        return a.tolist()
+    return a.astype(pack)
+
+
+def run_intpack(inp):
+    f = int_fn(inp["map"], inp["param"])
+    k, shape = inp["k"], inp["shape"]
+    Ai, Bi = _pack(inp["A"], shape, k, inp["pack"]), _pack(inp["B"], shape, k, inp["pack"])
+    Af = np.array(inp["A"], dtype=float).reshape(tuple(shape) + (k, k))
+    Bf = np.array(inp["B"], dtype=float).reshape(tuple(shape) + (k, k))
+    ABi = (Af @ Bf).round().astype(np.int64)
+    ABi = ABi.tolist() if inp["pack"] == "list" else ABi.astype(inp["pack"])
+    ri, rf = np.asarray(f(Ai)), np.asarray(f(Af.copy()))
+    rb, rab = np.asarray(f(Bi)), np.asarray(f(ABi))
+    if ri.dtype == object:
+        return {"object_dtype": True}
+    sc = 1 + float(np.max(np.abs(rf)))
+    return {"shape_ok": ri.shape == rf.shape, "same": float(np.max(np.abs(ri - rf)) / sc) if ri.shape == rf.shape else float("inf"),
+            "hom": float(np.max(np.abs(rab - ri @ rb)) / (1 + float(np.max(np.abs(ri))) * float(np.max(np.abs(rb))))),
+            "dtype": str(ri.dtype)}
+
+
+def judge_intpack(inp, obs, lr):
+    base = inp["map"][4:] if inp["map"].startswith("hom_") else inp["map"]
+    tags0 = {"map": base, "via_hom": inp["map"].startswith("hom_"), "pack": inp["pack"], "array": len(inp["shape"]) > 0, "integer_input": True}
+    if "exc" in obs:
+        return {"expected": "the value computed for the same matrices as float64", "observed": obs, "tags": dict(tags0, exc=obs["exc"])}
+    if obs.get("object_dtype"):
+        return {"expected": "numeric array", "observed": "object dtype", "tags": dict(tags0, object_dtype=True)}
+    if not obs["shape_ok"] or not obs["same"] <= 1e-9:
+        return {"expected": "integer packaging gives the same value as float64", "observed": obs, "tags": dict(tags0, site="value")}
+    if not obs["hom"] <= 1e-8:
+        return {"expected": "f(A·B) = f(A)·f(B) on integer matrices", "observed": obs, "tags": dict(tags0, site="product")}
+    return None
+
+
 CLAUSES = [
     Clause("irrep_corr", "corr", gen_irrep, run_irrep, judge_irrep, lean=lean_irrep, site="lie.sl2_irrep",
            budget={"quick": 120, "thorough": 3000},
@@ -696,19 +840,27 @@ CLAUSES = [
            what="sl2_to_so21 (arrays), sl2_iso (arrays, list input), o_to_pgl / hom.so21_to_sl2 / Isometry.to_sl2 on exact-ℚ matrices "
                 "incl. vanishing entries and det -1 — vs the model (repaired extraction; the pinned extraction is reported alongside)"),
     Clause("adjoint_corr", "corr", gen_adj, run_adj, judge_adj, lean=lean_adj, site="lie.gln_adjoint/sln_adjoint/sln_killing_form",
-           budget={"quick": 40, "thorough": 1000},
+           budget={"quick": 30, "thorough": 1000},
            what="gln_adjoint, sln_adjoint (direct and via lie.hom, with and without inv=), sln_killing_form, n = 2..6, ℚ and ℚ(i)"),
     Clause("blocks_corr", "corr", gen_blocks, run_blocks, judge_blocks, lean=lean_blocks, site="lie.slc_to_slr/block_include",
            budget={"quick": 100, "thorough": 2500},
            what="slc_to_slr and block_include on single matrices and arrays, n = 1..6, direct and via lie.hom"),
+    Clause("array_nd_corr", "corr", gen_nd, run_nd, judge_nd, lean=lean_nd, site="lie.sl2_irrep/sl2_to_so21/gln_adjoint on arrays",
+           budget={"quick": 60, "thorough": 1500},
+           what="whole arrays (composite shapes of rank 0-3, size-1 axes) through the literal ND models of the vectorised code "
+                "(entry loops with array arithmetic, broadcasting @, tiling linear_matrix_action) vs the arrays numpy returns"),
     Clause("so31_corr", "corr", gen_so31, run_so31, judge_so31, lean=lean_so31, site="lie.sl2c_to_so31",
-           budget={"quick": 40, "thorough": 1000},
+           budget={"quick": 30, "thorough": 1000},
            what="sl2c_to_so31 on SL(2,ℚ(i)) (incl. zero entries, real matrices, general invertible) vs the model over pairs of rationals; "
                 "the imaginary part dropped by utils.real is zero on both sides"),
     Clause("hom_oracle", "oracle", gen_hom, run_hom, judge_hom, site="lie.* / lie.hom.*",
            budget={"quick": 400, "thorough": 10000},
            what="f(A·B) = f(A)·f(B), f(1) = 1 for every map (irrep n=1..6, so21, gln/sln adjoint n=2..6, slc_to_slr, block_include, "
                 "sl2c_to_so31; direct and via lie.hom), single matrices and arrays of matrices, arrays = unit-by-unit"),
+    Clause("integer_oracle", "oracle", gen_intpack, run_intpack, judge_intpack, site="lie.* / lie.hom.* / hyperbolic.sl2_iso",
+           budget={"quick": 300, "thorough": 6000},
+           what="every Lie map on integer-dtype ndarrays (int64, int32), stacks of them, and Python int lists for sl2_iso / from_sl2: "
+                "same value as for float64 input, products to products"),
     Clause("structure_oracle", "oracle", gen_struct, run_struct, judge_struct, site="lie.*",
            budget={"quick": 300, "thorough": 8000},
            what="det sl2_irrep = 1; sl2_to_so21 preserves diag(-1,1,1), det ±1, sl2_iso stores it; sl2c_to_so31 real, preserves "
